@@ -270,7 +270,7 @@ def Mon.invoke (m : Mon) (t : Meta) : Mon × Bool :=
     if m.sInv.get l = 0 then (m, false) else ({ m with inv := m.inv.addAll (amounts t.call), fInv := m.fInv.inc l }, true)
   | .drop _ => ({ m with inv := m.inv.addAll (amounts t.call), invT := m.invT + 1 }, true)
   | .load l _ _ => if m.sInv.get l = 0 then (m, false) else ({ m with inv := m.inv.addAll (amounts t.call) }, true)
-  | .stats => ({ m with wins := m.wins ++ [({ tid := t.tid, rng := [] } : Window).update m] }, true)
+  | .stats => ({ m with wins := m.wins ++ [{ tid := t.tid, rng := m.locs.map fun l => (l, (m.lo l, m.hi l)) }] }, true)
 
 def repKvs (r : Report) : List (Key × Nat) :=
   r.drops.map (fun e => (Key.drop e.1, e.2)) ++
